@@ -420,7 +420,7 @@ def check_histories(ctx, name, driver, module, consts, xs, known_preds=(), extra
     extra_args = (extra_args + ' ' + EXTRA_ALL[0]).strip()
     """validate; every rejected execution is confirmed by an immediate replay; known findings are matched"""
     res = validate(ctx, name, module, xs, consts)
-    kfs = match_known_batch(ctx, driver, res['trace'], res['rejected'], set(known_preds), extra_args, name) if known_preds else {}
+    kfs = match_known_batch(ctx, driver, res['trace'], res['rejected'], set(known_preds), extra_args, name, use_tids=res.get('mode') == 'random') if known_preds else {}
     res['known_finding_executions'] = len(kfs)
     for num in res['rejected']:
         diag = res['diag'].get(num)
@@ -643,7 +643,7 @@ def known_finding_tla(ctx, pred, steptrace, tag=''):
     return {int(n): v == 'TRUE' for n, v in m}
 
 
-def match_known_batch(ctx, driver, tracefile, nums, pred_names, extra_args='', tag=''):
+def match_known_batch(ctx, driver, tracefile, nums, pred_names, extra_args='', tag='', use_tids=False):
     """replays the rejected executions with step logging, labels call sites and evaluates the finding
        predicates of the known (not fixed) findings of this property.  Returns {num: finding text}."""
     cands = [k for k in ctx.known if k['property'] == ctx.pid and k['status'] == 'known' and k.get('predicate') in pred_names]
@@ -658,7 +658,7 @@ def match_known_batch(ctx, driver, tracefile, nums, pred_names, extra_args='', t
                 continue
             prog, outcome, dec, tids, pbv = sched[num]
             rf = os.path.join(d, 'replay.txt')
-            open(rf, 'w').write(prog + '\n' + dec + '\n')
+            open(rf, 'w').write(prog + '\n' + (tids if use_tids else dec) + '\n')    # random schedules replay by their thread list
             out = os.path.join(d, 'steps.ndjson')
             rc, o = sh('timeout 120 %s --mode replay --replay %s --out %s --pb %d --steps %s' % (os.path.join(BUILD, driver), rf, out, pbv, extra_args), tmo=150)
             if 'XVSUMMARY' not in o:
